@@ -32,6 +32,8 @@ def _run_one(spec):
         skipfile = os.path.join(_WORK, spec.name + '.skip')
         ctx.skip = set(l.rstrip('\n') for l in open(skipfile)) if os.path.exists(skipfile) else set()
         core.start_watchdog(skipfile)
+        core.BUDGET['spent'] = 0.0
+        core.BUDGET['limit'] = float(os.environ.get('PHQV_UNIT_BUDGET_S', '300' if core.tier() == 'quick' else '3600'))
         _WORKER(ctx)
         out['times']['total'] = time.time() - t0
     except H.BuildError as e:
@@ -237,12 +239,17 @@ class Ctx:
                     if not names or len(names) > 6 or not all(nm_.startswith('x') for nm_ in names):
                         continue
                     kk = max(2, min(len(g), int(round(4000 ** (1.0 / max(1, len(names)))))))
-                    gsel = [g[j] for j in GRID_ORDER[:kk]]
-                    restrict = [z3.Or(*[modes.smt_eq(z3.FP(nm_, S), c) for c in gsel]) for nm_ in names]
-                    v, model, secs, _ = core.solve(asm + [dz] + restrict, min(self.timeout, 10000))
-                    o.secs += secs
-                    if v == 'sat':
-                        return self.decide(o, asm + [dz] + restrict, w, replay, grid=False)
+                    # smallest grid first: two values per input already separate most wrong formulas, and keep the
+                    # query easy when the terms contain square roots and divisions in the wider formats
+                    for k_ in ([2, 3, kk] if kk > 3 else [2, kk] if kk > 2 else [kk]):
+                        gsel = [g[j] for j in GRID_ORDER[:k_]]
+                        restrict = [z3.Or(*[modes.smt_eq(z3.FP(nm_, S), c) for c in gsel]) for nm_ in names]
+                        v, model, secs, _ = core.solve(asm + [dz] + restrict, min(self.timeout, 10000))
+                        o.secs += secs
+                        if v == 'sat':
+                            return self.decide(o, asm + [dz] + restrict, w, replay, grid=False)
+                        if v == 'unsat' and k_ == kk:
+                            break
         return self.decide(o, cons, w, replay, grid=bool(diffs))
 
     def decide(self, o, cons, w, replay=None, grid=True, want_smt=None):
